@@ -13,6 +13,7 @@
 #include <datatypes/msg_queue.h>
 #include <core/sync.h>
 #include <gvt/termination.h>
+#include <verif/rsv.h>
 
 /// The lowest LP id between the ones hosted on this node
 uint64_t lid_node_first;
@@ -103,6 +104,7 @@ void lp_init(void)
 		auto_ckpt_lp_init(&lp->auto_ckpt);
 		process_lp_init(lp);
 		termination_lp_init(lp);
+		RSV_EV(RSV_EV_LP_INIT, lp, i, 0, 0.0);
 	}
 }
 
@@ -114,6 +116,7 @@ void lp_fini(void)
 	for(uint64_t i = lid_thread_first; i < lid_thread_end; ++i) {
 		struct lp_ctx *lp = &lps[i];
 
+		RSV_EV(RSV_EV_LP_FINI, lp, i, 0, 0.0);
 		process_lp_fini(lp);
 		model_allocator_lp_fini(&lp->mm_state);
 	}
